@@ -650,7 +650,7 @@ Definition init_cfg (fuel : nat) (nodes : list (nat * nat)) (ths : list (list op
 Definition decode_op (o : list Z) : option op :=
   match o with
   | c :: r =>
-      if c =? 1 then match r with k :: h :: _ => Some (OIns (Z.to_nat k) (S (Nat.min (Z.to_nat h) 2))) | [k] => Some (OIns (Z.to_nat k) 1) | _ => None end
+      if c =? 1 then match r with k :: h :: _ => Some (OIns (Nat.min (Z.to_nat k) 7) (S (Nat.min (Z.to_nat h) 2))) | [k] => Some (OIns (Nat.min (Z.to_nat k) 7) 1) | _ => None end
       else if c =? 6 then match r with k :: _ => Some (OErase (Z.to_nat k)) | _ => None end
       else if c =? 10 then match r with k :: _ => Some (OContains (Z.to_nat k)) | _ => None end
       else if c =? 13 then Some OExtMin
